@@ -78,6 +78,17 @@ for n in sizes:
         M = rng.standard_normal((n, n))
         if cplx:
             M = M + 1j * rng.standard_normal((n, n))
+        # storage of the matrix: single precision, Fortran order and integer entries are the same numbers
+        _st = ["single", "default", "fortran"] if cplx else ["default", "single", "integer", "fortran"]
+        storage = _st[sizes.index(n) % len(_st)]
+        if storage == "single":
+            M = M.astype(np.complex64 if cplx else np.float32)
+        elif storage == "fortran":
+            M = np.asfortranarray(M)
+        elif storage == "integer" and not cplx:
+            M = np.round(M * 8).astype(np.int64)
+        chk.count(matrix_storage=f"{M.dtype}{' F-order' if storage == 'fortran' else ''}")
+        M_impl, M = M, (np.array(M, dtype=complex) if cplx else np.array(M, dtype=float))
         nodes = scat.make_angles(n)
         dth = 2 * np.pi / n
         inc = list(rng.uniform(-3 * np.pi * 2, 3 * np.pi * 2, size=12 if Q else 60))
@@ -93,7 +104,7 @@ for n in sizes:
         fam_inc += [np.pi, -np.pi, np.pi, np.nextafter(np.pi, 0), 0.0, 3 * np.pi]
         fam_out += [0.3, 0.3, np.pi, -np.pi, 0.0, -3 * np.pi]
         qi, qo = np.array(inc + fam_inc), np.array(out + fam_out)
-        impl = interp_impl(M, qi, qo)
+        impl = interp_impl(M_impl, qi, qo)
         mod = model_interp(M, 0, qi, qo)
         scale = np.max(np.abs(M))
         evaluations += len(qi)
@@ -101,31 +112,31 @@ for n in sizes:
         chk.count(matrix=("complex" if cplx else "real"), n=n)
         bad = np.nonzero(np.abs(impl - mod) > TOL * scale)[0]
         # spec predicates on the implementation
-        at_nodes = interp_impl(M, np.repeat(nodes, n), np.tile(nodes, n)).reshape(n, n)   # [i, j] = S(inc i, out j)
+        at_nodes = interp_impl(M_impl, np.repeat(nodes, n), np.tile(nodes, n)).reshape(n, n)   # [i, j] = S(inc i, out j)
         spec = {
             "nodes": np.allclose(at_nodes, M.T, rtol=0, atol=1e-9 * scale),
-            "periodic": np.allclose(interp_impl(M, qi + 2 * np.pi, qo - 2 * np.pi), impl, rtol=0, atol=1e-9 * scale),
-            "seam": np.allclose(interp_impl(M, [np.pi] * n, nodes), interp_impl(M, [-np.pi] * n, nodes), rtol=0, atol=1e-9 * scale),
+            "periodic": np.allclose(interp_impl(M_impl, qi + 2 * np.pi, qo - 2 * np.pi), impl, rtol=0, atol=1e-9 * scale),
+            "seam": np.allclose(interp_impl(M_impl, [np.pi] * n, nodes), interp_impl(M_impl, [-np.pi] * n, nodes), rtol=0, atol=1e-9 * scale),
         }
         # bilinear in between: midpoint of a cell is the mean of its 4 corners (with wrap)
         ii, jj = int(rng.integers(0, n)), int(rng.integers(0, n))
-        mid = interp_impl(M, [nodes[ii] + dth / 2], [nodes[jj] + dth / 2])[0]
+        mid = interp_impl(M_impl, [nodes[ii] + dth / 2], [nodes[jj] + dth / 2])[0]
         corners = (M[jj, ii] + M[jj, (ii + 1) % n] + M[(jj + 1) % n, ii] + M[(jj + 1) % n, (ii + 1) % n]) / 4
         spec["bilinear_midpoint"] = bool(abs(mid - corners) <= 1e-9 * scale)
         for name, ok in spec.items():
             if not ok:
                 chk.violation(f"interp:{name}", f"interpolation property '{name}' fails on the implementation",
-                              {"n": n, "complex": cplx, "matrix": M, "cell": [ii, jj]})
+                              {"n": n, "complex": cplx, "stored_dtype": str(M_impl.dtype), "storage": storage, "matrix": M, "cell": [ii, jj]})
         if len(bad) and all(spec.values()):
             t = int(bad[0])
             chk.violation("interp:model", "interpolate_matrix differs from the model",
-                          {"n": n, "complex": cplx, "matrix": M, "inc": float(qi[t]), "out": float(qo[t]),
+                          {"n": n, "complex": cplx, "stored_dtype": str(M_impl.dtype), "storage": storage, "matrix": M, "inc": float(qi[t]), "out": float(qo[t]),
                            "impl": impl[t], "model": mod[t], "correspondence": "Model.ScatMatrix.interp (extracted)"},
                           failing_input_found=False)
         elif len(bad):
             t = int(bad[0])
             chk.violation("interp:model", "interpolate_matrix differs from the model",
-                          {"n": n, "complex": cplx, "matrix": M, "inc": float(qi[t]), "out": float(qo[t]),
+                          {"n": n, "complex": cplx, "stored_dtype": str(M_impl.dtype), "storage": storage, "matrix": M, "inc": float(qi[t]), "out": float(qo[t]),
                            "impl": impl[t], "model": mod[t]})
 samples.append({"interp": {"n": 4, "query": "nodes, node+-ulp, seam, +-3 periods, random"}})
 
